@@ -21,6 +21,12 @@ func genPrograms(tier string) string {
 		"x++",
 		"esc2(&x, &x)",
 		"esc2(&y, &x)",
+		"x, y = y+1, x",
+		"{ bb := x > y && true; useB(bb || false) }",
+		"{ x, z := y, x; y = z; use(x) }",
+		"func() { x++ }()",
+		"defer func() { use(x) }()",
+		"{ p := &y; *p += x }",
 	}
 	ctl := []string{
 		"if c { %s } else { %s }",
@@ -31,6 +37,12 @@ func genPrograms(tier string) string {
 		"for i := 0; i < n && i < 4; i++ { if i%%2 == 0 { %s } else { %s } }",
 		"if x > 3 { %s; return x + y }",
 		"if c { %s; goto done }",
+		"switch { case x > 2: %s; fallthrough; case c: %s; default: use(0) }",
+		"switch z := x & 3; z { case 0: %s; case 1, 2: %s }",
+		"@L: for i := 0; i < n && i < 3; i++ { for j := 0; j < 2; j++ { if c { %s; continue @L }; %s; if y > 9 { break @L } } }",
+		"for i := range 3 { f := func() int { return i + x }; %s; use(f()) }",
+		"for _, v := range []int{x, y} { %s; use(v) }",
+		"if x > 1 || c && y > 1 { %s } else if !c { %s }",
 	}
 	var stmts []string
 	stmts = append(stmts, atoms...)
@@ -58,6 +70,7 @@ func genPrograms(tier string) string {
 	var sb strings.Builder
 	sb.WriteString("package irc\n\n")
 	k := 0
+	nlabel := 0
 	emit := func(body ...string) {
 		// two epilogues: both locals live at the end, or only y (so that x is
 		// live only where the body reads it)
@@ -65,6 +78,8 @@ func genPrograms(tier string) string {
 			k++
 			fmt.Fprintf(&sb, "func Gen%d(c bool, n int, a, b int) int {\n\tx, y := a, b\n\t_, _ = x, y\n", k)
 			for _, s := range body {
+				nlabel++
+				s = strings.ReplaceAll(s, "@L", fmt.Sprintf("L%d", nlabel))
 				sb.WriteString("\t" + s + "\n")
 			}
 			sb.WriteString("\tgoto done\ndone:\n\t" + epi + "\n}\n\n")
@@ -79,8 +94,11 @@ func genPrograms(tier string) string {
 	}
 	for i := 0; i < limit; i++ {
 		for j := 0; j < len(stmts); j++ {
-			if tier != "thorough" && (i*7+j*3)%5 != 0 {
-				continue // quick tier: a fixed fifth of the pairs
+			if tier != "thorough" && (i*7+j*3)%8 != 0 {
+				continue // quick tier: a fixed eighth of the pairs
+			}
+			if tier == "thorough" && (i*5+j*3)%16 != 0 {
+				continue // thorough tier: a fixed sixteenth of all pairs
 			}
 			emit(stmts[i], stmts[j])
 		}
